@@ -492,14 +492,39 @@ func verifRepairPolicy(p *conf_v1.Policy, r *verifRng) {
 		s.BasicAuth = &conf_v1.BasicAuth{Realm: "r", Secret: "k1"}
 	}
 	if s.RateLimit != nil {
-		if s.RateLimit.Rate == "bad" && r.below(2) == 0 {
-			s.RateLimit.Rate = "5r/s"
+		if r.below(4) != 0 {
+			// every spelling of a rate the validator admits (it takes the unit in either case; the generator's own parser does not)
+			s.RateLimit.Rate = []string{"5r/s", "10r/S", "30r/M", "1r/m", "100r/s", "7r/M"}[r.below(6)]
+		}
+		if r.below(2) == 0 {
+			s.RateLimit.Scale = true
 		}
 		if s.RateLimit.ZoneSize == "" {
 			s.RateLimit.ZoneSize = "10M"
 		}
 		if s.RateLimit.Key == "" {
 			s.RateLimit.Key = "${binary_remote_addr}"
+		}
+		if r.below(6) != 0 {
+			// mostly a policy the validator accepts (the shape-directed fill alone is rejected nine times in ten, and a rejected
+			// policy exercises nothing behind the validator): legal key, sizes, log level, reject code; no Plus-only condition
+			rl := s.RateLimit
+			rl.Key = []string{"${binary_remote_addr}", "${request_uri}"}[r.below(2)]
+			rl.ZoneSize = []string{"10M", "512k"}[r.below(2)]
+			rl.LogLevel = []string{"", "warn", "error"}[r.below(3)]
+			if rl.RejectCode != nil {
+				c := []int{429, 503}[r.below(2)]
+				rl.RejectCode = &c
+			}
+			if rl.Delay != nil {
+				d := 1 + r.below(5)
+				rl.Delay = &d
+			}
+			if rl.Burst != nil {
+				b := 1 + r.below(9)
+				rl.Burst = &b
+			}
+			rl.Condition = nil
 		}
 	}
 }
